@@ -8,6 +8,7 @@ mod c20;
 mod c21;
 mod c33;
 mod gtchk;
+mod lpcomp;
 mod oraclechk;
 mod world;
 mod tlworld;
@@ -49,6 +50,8 @@ fn main() {
         "C32" => gtchk::run_c32(&cli),
         "C33" => c33::run(&cli),
         "C35" => c35::run(&cli),
+        "C38" => lpcomp::run_c38(&cli),
+        "C39" => lpcomp::run_c39(&cli),
         "C36" => tlworld::run_c36(&cli),
         other => {
             eprintln!("unknown property {other}");
